@@ -73,6 +73,14 @@ func runCli(cc cliCase) string {
 		args = append(args, "-port", "notanumber")
 	case 3:
 		args = append(args, "-config", filepath.Join(dir, "does-not-exist.conf"))
+	case 4: // a configuration file that cannot be read: it is a directory
+		_ = os.Mkdir(filepath.Join(dir, "confdir"), 0o755)
+		args = append(args, "-config", filepath.Join(dir, "confdir"))
+	case 5: // ... it lies below a regular file
+		_ = os.WriteFile(filepath.Join(dir, "plainfile"), []byte("x\n"), 0o644)
+		args = append(args, "-config", filepath.Join(dir, "plainfile", "e3dc.conf"))
+	case 6: // ... the default .config of the working directory is a directory
+		_ = os.Mkdir(filepath.Join(dir, ".config"), 0o755)
 	}
 	if cc.host {
 		args = append(args, "-host", "127.0.0.1")
@@ -320,7 +328,7 @@ func init() {
 			special(func(c *cliCase) { c.help = true }, pv.text(), pv)
 			special(func(c *cliCase) { c.version = true }, pv.text(), pv)
 			special(func(c *cliCase) { c.help = true; c.host = false }, pv.text(), pv)
-			for fe := 1; fe <= 3; fe++ {
+			for fe := 1; fe <= 6; fe++ {
 				fe := fe
 				special(func(c *cliCase) { c.flagerr = fe }, pv.text(), pv)
 			}
